@@ -17,7 +17,10 @@ SPEC = {
                    "whose hash chains leave the file (260 long-named counters so that it grows beyond its first page, then "
                    "truncated to 16 KiB; or the last record of a chain linked past the end) - unparseable by an independent "
                    "structural check of the v1 layout in the harness, whatever the parser under test says; "
-                   "same-week files with different begins; in 55 % of the scenarios an "
+                   "same-week files with different begins; a fifth counter name that is not valid UTF-8 (in 12 % of the files); in 25 % "
+                   "of the scenarios a count file written by an independent encoder of the v1 layout whose TimeEnd is the "
+                   "same instant as a library-written file's but spelled on a clock east of UTC (+01:00 .. +12:00, same "
+                   "date): same week, and with the same identity the same program entry; in 55 % of the scenarios an "
                    "IDENTITY GROUP: 2-4 files of one report week whose program identities differ from a base identity "
                    "in exactly ONE of the five fields Program (another last path element, or the same one under another "
                    "directory: count-file names that differ in the date only) / Version / GoVersion (set through the library's build "
